@@ -21,10 +21,13 @@ OPS = ["Remove", "SymbolicLink", "HardLink", "RefLink", "Move"]
 
 
 def script_obligation(rep, prog):
-    extra = dict(listsum.LIST)
+    import optsum
+    from obligations import dedupe_part
+    extra = dict(optsum.SUMMARIES)
+    extra.update(listsum.LIST)
     extra[r"are_on_same_mount$"] = summaries.pure("same_mount")
     extra[r"move_target$"] = summaries.pure("move_target")
-    eng = oblig.engine(prog, unroll=4, extra=extra)
+    eng = oblig.engine(prog, unroll=4, extra=extra, inline=dedupe_part.dedupe_inliner(prog))
     ds = prog.method("PartitionedFileGroup", "dedupe_script")
     fi = prog.src.field_index
     bad, seen = [], 0
